@@ -4,6 +4,11 @@ manifest is valid at every commit)."""
 import json, os, sys
 
 CHECKS = {
+ "C04": ("exploration",
+         "full product of URL components with an exact expectation of the bytes written; generic request oracle on every connection for relative references, webfinger handles, hostile content and the UI's :open command",
+         "60 784 URL strings (6 schemes x 3 userinfos x 10 hosts incl. one that refuses connections x 14 paths x 8 queries x 3 fragments) through url.Parse + jtp.Get: non-https URLs open no connection; every https URL opens exactly one TLS connection to its host and port and writes exactly request line + Host + Accept with the expected escaping; 18 hostile references x 4 sources through client.FetchUnknown, as Location / embedded reference / id through pub.New and the Tangible methods, 154 webfinger handles, and the :open command typed byte by byte: every connection is TLS with verification on, four CRLF lines, no control bytes, origin-form target without blanks or fragment, Host matching the dial address, constant Accept.",
+         "Env-B: observation at the verifrt.Dial seam (records the dial function called, TLS config class, address, bytes written); connections whose dial host Go's resolver would reject are not judged; no real socket or certificate validation is exercised here.",
+         "DESIGN.md §3 C04"),
  "C05": ("fault_enumeration",
          "exhaustive fault-point enumeration (every cut byte x FIN/RST/stall x every hop, trickle, connection-stage faults) over a response corpus on the real fetch path with virtual-time connections",
          "9 exchanges (single responses, a 3-hop redirect chain, webfinger, pub.New on an actor with outbox); every byte offset of every response as a cut with FIN, with RST and as a stall, trickle from 3 offsets, refused and stalled connections, at every hop (5 739 fault runs quick; thorough cuts the 4 kB response at every byte too): the call returns, no panic, no hang (a stalled read must meet an armed deadline), virtual time <= 5 x timeout per connection, and no document unless the whole JSON object was delivered.",
